@@ -29,6 +29,9 @@ claimed={
  "C07":dict(design="§7 C07",
    text="Bounded symbolic model checking of the real stream decoders (readSizePreface, readProtoMessage, doHttpCall's read loop, clientStream.RecvMsg, serverStream.RecvMsg): the body is an arbitrary byte string up to the cap (so every 32-bit length prefix is covered), ending cleanly or abruptly; an allocation monitor asserts size <= maxMessageSize at every input-dependent make; delivered messages are compared with a reference frame splitter (no fabrication, intact prefix); success requires a complete OK trailer; plus a well-formed response cut at every byte offset must be a failed call. Panics are implicit assertions.",
    note="Trusted: engine SSA semantics, protobuf wire codec intrinsic (real wire format for the generated structs; unknown fields skipped as the runtime does), context model, io.Pipe/io.ReadAtLeast/binary.Read from real SSA. Bodies longer than the cap are outside the claim; allocations larger than the alloc cap are checked against the limit but not followed further."),
+ "C11":dict(design="§7 C11",
+   text="Bounded symbolic model checking of the real handleMethod / handleStream closures with a recording ResponseWriter: HTTP method string, Content-Type (concrete values through the real mime parser plus symbolic parameter-less values at the lengths where a supported type can occur), a -bin header (real base64 rules as terms), GRPC-Timeout and the body bytes are symbolic, one dimension at a time plus all together at a smaller bound. Assertions: handler at most once and only for POST + supported media type + decodable headers, else 405/415/400 without running application code; undecodable unary body => InvalidArgument; the recorded streaming reply is data frames followed by exactly one decodable trailer frame; panics are implicit assertions.",
+   note="Trusted: engine SSA semantics; mime/base64/protobuf-wire intrinsics (validated per run against the native build on sampled paths); http.Error and Header from real SSA. Not covered: 404 routing (ServeMux, see C12), JSON body equivalence (protojson not modelled; only codec selection), trailers that cannot be encoded (non-UTF-8, see the C02/C03 finding). The cross product of all dimensions is explored only at the smaller 'all' bound."),
 }
 pending_reason="check not built yet (engine layers under construction); see DESIGN.md §9"
 na={}
